@@ -831,6 +831,12 @@ func (interp *Interpreter) cfg(root *node, sc *scope, importPath, pkgName string
 						// which would detach the pointers already taken on the existing variable.
 						break
 					}
+					if n.kind == defineStmt && src.typ.cat != structT {
+						// Skip optimization for a definition: array, slice and map literals are stored in
+						// the existing frame slot, whereas := declares a new variable each time it is executed
+						// (closures created in a previous iteration of a loop keep the previous one).
+						break
+					}
 					n.gen = nop
 					src.findex = dest.findex
 					src.level = level
